@@ -120,6 +120,7 @@ impl Prop for C19 {
             buffered,
             gate_calls: vec![],
             trace: rng.chance(1, 8),
+            via_builder: None,
             inbound,
             reads,
             writes,
